@@ -25,7 +25,10 @@ ASSUMPTIONS = ["tolerances are scale-relative: 2e-5 (CLARABEL) / 2e-2 (SCS) time
 
 @st.composite
 def _case(draw, thorough):
-    m = draw(gen.model(max_steps=3 if thorough else 2, allow_nonsym_lmi=False))
+    if draw(st.integers(0, 3)) == 0:
+        m = draw(gen.wild_model(max_len=16 if thorough else 12))
+    else:
+        m = draw(gen.model(max_steps=3 if thorough else 2, allow_nonsym_lmi=True))
     o = draw(gen.solve_options(solvers=("CLARABEL", "CLARABEL", "CLARABEL", "SCS", None), allow_drh=True))
     pre = draw(st.lists(st.tuples(st.sampled_from(["P", "E", "C", "M", "derP", "derE"]), st.integers(0, 60),
                                   st.integers(0, 60)), max_size=4))
